@@ -532,6 +532,99 @@ def format_literals(prog, res):
     return n
 
 
+def tag_table(prog, res, rule="T-TAGS"):
+    """A (Big)TIFF directory is a table of entries with unique tags in ascending order.
+    (a) every tag builder of tiff.cpp (a function that returns tag_t::as_*(ID, ..)) uses ONE tag id on
+        all of its return paths, and no two builders share an id (sibling agreement: x_/y_resolution);
+    (b) the initialiser of the directory in Tiff::append lists its builders in strictly ascending
+        order of those ids (both arms of a conditional entry carry the same id)."""
+    ids = {}
+    for g in prog.all_funcs():
+        if not g.file.endswith("storage/tiff.cpp") or not g.blocks:
+            continue
+        found = set()
+        if "tag_t::" in g.name:
+            continue     # the constructors themselves
+        for b, i, s_ in g.all_stmts():
+            for c in ir.calls_in(s_):
+                fn = c.get("fn") or ""
+                if "tag_t::as_" in fn and c.get("args"):
+                    consts = [ir.strip(a)["v"] for a in c["args"][:2] if ir.is_const(a)]
+                    if consts:
+                        found.add(consts[0])
+        if found:
+            ids[g.name] = found
+    if len(ids) < 10:
+        raise AnalysisBroken("tiff.cpp: tag builders not found (%d)" % len(ids))
+    bad = {n: v for n, v in ids.items() if len(v) != 1}
+    for n, v in sorted(bad.items()):
+        g = prog.func(n)
+        res.fail(rule, "%s uses one tag id" % n.split("::")[-1], "%s|builder|%s" % (rule, n.split("::")[-1]), g.loc(),
+                 "%s returns entries with different tag ids %s on different paths: the directory carries one tag twice and lacks the other" % (n.split("::")[-1], sorted(v)))
+    single = {n: list(v)[0] for n, v in ids.items() if len(v) == 1}
+    seen = {}
+    for n, v in sorted(single.items()):
+        if v in seen:
+            g = prog.func(n)
+            res.fail(rule, "tag %d has one builder" % v, "%s|shared|%d" % (rule, v), g.loc(),
+                     "%s and %s both produce tag %d" % (seen[v].split("::")[-1], n.split("::")[-1], v))
+        seen.setdefault(v, n)
+    if not bad:
+        res.oblige(rule, "every tag builder uses one id, ids are unique", True, "%d builders" % len(ids), "acquire-driver-common/src/storage/tiff.cpp")
+    # (b) order in the directory initialiser
+    apps = [g for g in prog.all_funcs() if g.name.endswith("Tiff::append")]
+    if not apps:
+        raise AnalysisBroken("Tiff::append not found")
+    f = apps[0]
+
+    def builder_ids(n, depth=0):
+        n = ir.strip(n)
+        if not isinstance(n, dict) or depth > 6:
+            return set()
+        if n.get("k") == "ref":
+            t = f.resolve_ref(n)
+            return builder_ids(t, depth + 1) if t is not None else set()
+        if n.get("k") == "cond":
+            return builder_ids(n.get("t"), depth + 1) | builder_ids(n.get("f"), depth + 1)
+        if n.get("k") == "call":
+            g = prog.resolve(n.get("fn"), f) if n.get("fn") else None
+            if g is not None and g.name in ids:
+                return set(ids[g.name])
+        out = set()
+        for y in ir.calls_in(n):
+            g = prog.resolve(y.get("fn"), f) if y.get("fn") else None
+            if g is not None and g.name in ids:
+                out |= ids[g.name]
+        return out
+    tables = []
+    for b, i, s_ in f.all_stmts():
+        if s_.get("k") == "decl" and isinstance(s_.get("init"), dict) and s_["init"].get("k") == "init":
+            for el in s_["init"].get("elts", []):
+                v = el.get("v")
+                if isinstance(v, dict) and v.get("k") == "init" and "tag_t" in str(v.get("t", "")):
+                    tables.append((s_, [builder_ids(e.get("v")) for e in v.get("elts", [])]))
+    if not tables:
+        raise AnalysisBroken("Tiff::append: the directory's tag table was not found")
+    for s_, seq in tables:
+        inst = "Tiff::append: directory entries in ascending tag order"
+        flat = []
+        probs = []
+        for k, idset in enumerate(seq):
+            if len(idset) != 1:
+                probs.append("entry %d carries tag ids %s" % (k, sorted(idset) or "unknown"))
+                flat.append(None)
+            else:
+                flat.append(list(idset)[0])
+        known = [x for x in flat if x is not None]
+        if any(a >= b for a, b in zip(known, known[1:])):
+            probs.append("the order is %s" % known)
+        if probs:
+            res.fail(rule, inst, "%s|order" % rule, f.loc(s_),
+                     "the directory written per frame is not a valid TIFF directory: %s (entries must have unique tags in ascending order)" % "; ".join(probs))
+        else:
+            res.oblige(rule, inst, True, "%d entries: %s" % (len(known), known), f.loc(s_))
+
+
 def run(ctx, res):
     prog = ctx.program()
     res.extra["explanation"] = EXPLANATION
@@ -558,6 +651,8 @@ def run(ctx, res):
         if g.name.split("::")[-1] == "side_by_side_tiff_set":
             res.guard(adopt.rule_set_adopts_all, prog, res, g)
     res.guard(tiff_layout, prog, res)
+    res.guard(tag_table, prog, res)
+    res.require_min("T-TAGS", 2)
     res.guard(metadata_file, prog, res)
     res.guard(string_section, prog, res)
     res.require_min("R-TIFF-LAYOUT", 18)
